@@ -120,7 +120,7 @@ def _res_cases(tier):
     for geom in geoms:
         for payload in ("scalar", "vector-series"):
             for mode, native, factors in (("coarser", (4, 2), (2, 2)), ("coarser", (2, 6), (1, 3)), ("finer", (2, 1), (2, 3)), ("finer", (1, 2), (3, 1)),
-                                          ("mixed", (2, 2), (2, 1))):
+                                          ("mixed", (2, 2), (2, 1)), ("mixed", (4, 2), (2, 1)), ("mixed-t", (2, 4), (1, 2))):
                 if payload == "vector-series" and "array" in geom or (payload == "vector-series" and geom == "extporous-ia"):
                     pass
                 out.append(dict(geom=geom, payload=payload, mode=mode, native=native, factors=factors))
@@ -151,14 +151,24 @@ def c03_resolution(ctx, geom, payload, mode, native, factors):
         fine = _refine(narr, factors)
         got = g.integrate(fine)
         ctx.ensure("integrate(field refined by integer factors) == integrate(field)", eq(got, spec_integral(narr, w, vol, dim)))
-    else:
-        # coarser along axis 0, finer along axis 1
+    elif mode == "mixed":
+        # coarser along axis 0, finer along axis 1 (by 2, and by 4: then the data has strictly MORE voxels than the geometry although one axis is coarser)
         base_shape = (native[0] // factors[0], native[1])
         base, barr = make_data(ctx, base_shape, payload, "c")
-        supplied = np.repeat(barr, 2, axis=1)                      # finer along axis 1
         field_native = np.repeat(barr, factors[0], axis=0)         # the field at native resolution
-        got = g.integrate(supplied)
-        ctx.ensure("integrate(field coarser along axis 0 and finer along axis 1) == native integral", eq(got, spec_integral(field_native, w, vol, dim)))
+        for up in (2, 4):
+            supplied = np.repeat(barr, up, axis=1)                 # finer along axis 1
+            got = g.integrate(supplied)
+            ctx.ensure(f"integrate(field coarser along axis 0 and {up}x finer along axis 1) == native integral", eq(got, spec_integral(field_native, w, vol, dim)))
+    else:
+        # transposed: coarser along axis 1, finer along axis 0
+        base_shape = (native[0], native[1] // factors[1])
+        base, barr = make_data(ctx, base_shape, payload, "c")
+        field_native = np.repeat(barr, factors[1], axis=1)
+        for up in (2, 4):
+            supplied = np.repeat(barr, up, axis=0)
+            got = g.integrate(supplied)
+            ctx.ensure(f"integrate(field coarser along axis 1 and {up}x finer along axis 0) == native integral", eq(got, spec_integral(field_native, w, vol, dim)))
 
 
 # native resolution (6, 4): 'coarser' = (3, 2), 'other-coarser' = (2, 2) — the two coarse shapes do not divide each other (3 -> 2), so a
